@@ -99,9 +99,9 @@ def handle (toks : List String) : String :=
       match mkKeyring secrets ls lp ie lsig with
       | none => bad
       | some kr =>
-        -- `Decrypt.openBytes` (Model/Front.lean): bytes the spec-shaped reader (`Wire`) does not cover are read the
-        -- way go-codec reads them (`Codec`, typed decoding incl. its leniencies); only what neither models goes to
-        -- the decoded-packets route
+        -- `Decrypt.openBytes` (Model/Front.lean): the bytes are read the way go-codec reads them (`Codec`, typed decoding
+        -- incl. its leniencies and its order); the spec-shaped reader (`Wire`) only for what `Codec` calls unmodelled; only
+        -- what neither models goes to the decoded-packets route
         match Decrypt.openBytes RealPrims valid kr msg with
         | .error w => s!"unmodelled {w.replace " " "_"}"
         | .ok r =>
@@ -127,7 +127,7 @@ def handle (toks : List String) : String :=
       match mkKeyring secrets ls lp ie lsig with
       | none => bad
       | some kr =>
-        -- `Signcrypt.openBytes` (Model/Front.lean): `Wire` first, `Codec` for what `Wire` calls unmodelled
+        -- `Signcrypt.openBytes` (Model/Front.lean): `Codec` first, `Wire` for what `Codec` calls unmodelled
         match Signcrypt.openBytes RealPrims kr res msg with
         | .error w => s!"unmodelled {w.replace " " "_"}"
         | .ok r =>
@@ -158,7 +158,7 @@ def handle (toks : List String) : String :=
       match mkKeyring [] "none" "nil" "nil" lsig with
       | none => bad
       | some kr =>
-        -- `Sign.verifyBytes` (Model/Front.lean): `Wire` first, `Codec` for what `Wire` calls unmodelled
+        -- `Sign.verifyBytes` (Model/Front.lean): `Codec` first, `Wire` for what `Codec` calls unmodelled
         match Sign.verifyBytes RealPrims valid kr msg with
         | .error w => s!"unmodelled {w.replace " " "_"}"
         | .ok r =>
